@@ -418,6 +418,37 @@ pub fn check(tier: &str) -> i32 {
         }
     }
 
+    // (b2) REMEMBER wraps a whole query text and an alias: the wrapped query must parse to what it
+    // parses to on its own and the alias must come back unchanged, for query texts holding string
+    // literals of every kind (ASCII, accents, characters whose upper-case form has another UTF-8
+    // length, ligatures, CJK, emoji) also right in front of the AS keyword
+    {
+        let specials = ["x", "é", "ß", "ı", "ſ", "ﬁ", "ǰ", "ŉ", "ΐ", "և", "İ", "ısı", "☃", "日本", "\u{1F600}", "a AS b", " as "];
+        let shapes = ["QUERY a WHERE s = \"{}\" AND k > 1 LIMIT 100", "QUERY a WHERE k > 1 AND s = \"{}\"", "QUERY a FOR \"{}\" LIMIT 100", "QUERY a WHERE s IN (\"{}\", \"{}\") ORDER BY k DESC LIMIT 7 OFFSET 3"];
+        let aliases = ["daily", "m1", "AS1", "as_x"];
+        let mut n_remember = 0u64;
+        for sp in specials {
+            for sh in shapes {
+                let q = sh.replace("{}", sp);
+                for al in aliases {
+                    let text = format!("REMEMBER {q} AS {al}");
+                    n_remember += 1;
+                    match (try_parse(&q), try_parse(&text)) {
+                        (_, Outcome::Panicked(m)) => viols.push(Viol { tag: "panic".into(), input: text.clone(), what: m }),
+                        (Outcome::Parsed(inner), Outcome::Parsed(Command::RememberQuery { spec })) => {
+                            if spec.name != al || *spec.query != inner {
+                                viols.push(Viol { tag: "remember-structure".into(), input: text.clone(), what: format!("alias {:?} (given {al:?}); wrapped query differs from the query parsed alone: {}", spec.name, *spec.query != inner) });
+                            }
+                        }
+                        (Outcome::Parsed(_), other) => viols.push(Viol { tag: "remember-structure".into(), input: text.clone(), what: format!("the query parses alone but the REMEMBER form gives {}", match other { Outcome::Rejected => "a parse error".to_string(), Outcome::Parsed(c) => format!("{c:?}").chars().take(80).collect(), Outcome::Panicked(m) => m }) }),
+                        _ => {}
+                    }
+                }
+            }
+        }
+        evals += n_remember;
+    }
+
     // (c) corpus mutations
     let corp = corpus();
     let subst = ["(", ")", "\"", "99999999999", "-1", "1.5", "{", "}", "NOT", "AND", ",", "é", "LIMIT"];
